@@ -25,6 +25,9 @@ def history_signature(tr, extra=()):
     return digest((rows, tuple(extra)))
 
 
+from .rng import sub as _sub
+
+
 def base_outcome(tr, extra_sig=()):
     out = Outcome()
     out.periods = len(tr.periods) if tr.periods else tr.ctx.taps
@@ -54,6 +57,8 @@ def base_outcome(tr, extra_sig=()):
         "odd_station_ids": any(s_["id"] in ("1", "01", "A/1", "a b") for s_ in net_.get("stations", [])),
         "odd_constraint_names": any(not c_["name"].startswith("c") or not c_["name"][1:].isdigit() for c_ in net_.get("constraints", [])),
         "all_zero_constraint_row": any(all(v_ == 0 for v_ in c_["coeffs"].values()) for c_ in net_.get("constraints", [])),
+        "positional_network_constructor": bool(net_.get("positional")),
+        "positional_algorithm_constructor": par_.get("kind") in ("greedy", "rr") and _sub(sc.get("seed", 0), "algo_call_form").random() < 0.25,
         "numeric_session_ids": any(s_["session_id"] in ("1001", "0007", "7", "007") for s_ in sc.get("sessions", [])),
         "phases_not_three_phase": any(s_["phase"] not in (0, 30, -90, 150) for s_ in net_.get("stations", [])) or
         ({s_["phase"] for s_ in net_.get("stations", [])} >= {0, 180}),
